@@ -637,9 +637,18 @@ func (x *Exec) execStmt(st *State, s ast.Stmt, env *Env, inSelectArm bool) []*St
 	case *ast.IncDecStmt:
 		tok := x.Tok(s.Pos())
 		lk := x.LocKey(st, s.X, env)
+		old := x.ValueName(st, s.X, env)
+		nv := Sym("incdec" + tok)
+		if len(old) < 120 && !strings.Contains(old, tok) && !strings.Contains(old, "+1)") && !strings.Contains(old, "-1)") {
+			if s.Tok == token.INC {
+				nv = Sym("(" + old + "+1)")
+			} else {
+				nv = Sym("(" + old + "-1)")
+			}
+		}
 		c := x.kill(x.Forget(st, tok), lk, tok)
-		c = c.Bind(lk, Sym("incdec"+tok))
-		return []*State{x.Spec.Assign(x, c, s.X, nil, Sym("incdec"+tok))}
+		c = c.Bind(lk, nv).Unbind("~" + lk)
+		return []*State{x.Spec.Assign(x, c, s.X, nil, nv)}
 	case *ast.AssignStmt:
 		return x.execAssign(st, s, env)
 	case *ast.DeferStmt:
@@ -1240,7 +1249,61 @@ func (x *Exec) evalCalls(st *State, e ast.Expr, env *Env) []*State {
 }
 
 // call interprets one call whose arguments have been evaluated.
+// killCaptured forgets the variables a function literal assigns: the literal
+// may run (now or later) and change them behind the analysed path's back.
+func (x *Exec) killCaptured(st *State, fl *ast.FuncLit) *State {
+	tok := x.Tok(fl.Pos())
+	c := st
+	ast.Inspect(fl.Body, func(n ast.Node) bool {
+		var lhs []ast.Expr
+		switch v := n.(type) {
+		case *ast.AssignStmt:
+			lhs = v.Lhs
+		case *ast.IncDecStmt:
+			lhs = []ast.Expr{v.X}
+		}
+		for _, l := range lhs {
+			base := ast.Unparen(l)
+			for {
+				switch b := base.(type) {
+				case *ast.SelectorExpr:
+					base = ast.Unparen(b.X)
+					continue
+				case *ast.IndexExpr:
+					base = ast.Unparen(b.X)
+					continue
+				case *ast.StarExpr:
+					base = ast.Unparen(b.X)
+					continue
+				}
+				break
+			}
+			id, ok := base.(*ast.Ident)
+			if !ok {
+				continue
+			}
+			obj := x.P.Info.Uses[id]
+			if obj == nil || (obj.Pos() >= fl.Pos() && obj.Pos() <= fl.End()) {
+				continue // declared inside the literal
+			}
+			k := x.canonEnv(l, nil)
+			c = x.kill(c, k, tok)
+			c = c.Bind(k, Sym(k+"~"+tok))
+		}
+		return true
+	})
+	return c
+}
+
 func (x *Exec) call(st *State, call *ast.CallExpr, env *Env) []*State {
+	for _, a := range call.Args {
+		if fl, ok := ast.Unparen(a).(*ast.FuncLit); ok {
+			st = x.killCaptured(st, fl)
+		}
+	}
+	if fl, ok := ast.Unparen(call.Fun).(*ast.FuncLit); ok {
+		st = x.killCaptured(st, fl)
+	}
 	if b := x.P.Builtin(call); b != "len" && b != "cap" && b != "min" && b != "max" {
 		st = x.Forget(st, x.Tok(call.Pos()))
 	}
